@@ -235,9 +235,15 @@ PROPS["C18"] = {
 
 PROPS["C12"] = {
     "level": "proof",
+    # the '>>' marks of a listing are the word-code label finder's set (3.6+): its contract (C04's) is discharged here too,
+    # for the tables of the hosts' own versions in the quick tier and every word-code table in the thorough tier
+    "contracts": [
+        ("contracts.wordcode", "xdis.wordcode:findlabels", {"quick": ["38", "310"], "thorough": None}),
+        ("contracts.wordcode", "xdis.wordcode:findlabels/3.11+"),
+    ],
     "ground": [("ground.effects", "check_c12")],
     "bounded": [("ground.listing", "check")],
-    "technique": "frame condition (no write to sys.stdout) checked statically per reachable function; bounded listing-vs-instruction-stream comparison on the corpus as stand-in for the formatters",
+    "technique": "frame condition (no write to sys.stdout) checked statically per reachable function; contract of the word-code label finder behind the '>>' marks discharged by pyvc (AST -> VCs -> z3/cvc5); bounded listing-vs-instruction-stream comparison on the corpus as stand-in for the formatters",
     "assumptions": [],
 }
 
@@ -284,7 +290,7 @@ _T = {
          "KeyboardInterrupt/SystemExit not modelled; load_module's size check and open() are assumed to see the same file (no race); RecursionError raised inside the readers is converted to ImportError like any other exception (counts as failing cleanly); static frame analysis recognises primitives by spelling; the unmarshaller's termination on hostile input is bounded evidence only."),
  "C18": ("History independence is decided as a frame condition: for each of the 235 functions reachable from the public operations (load_module, disassemble_file, get_opcode / get_opcode_module, make_std_api, marsh dump(s)/load(s), load_code, Bytecode, the label and line-start finders) one obligation shows that its body writes no module-level or class-level container, no mutable default argument (also not by letting it escape into an attribute), keeps no memo (@lru_cache) and patches no table except by save/restore in a finally block; remap_opcodes is the documented exception. Two alias forms are tracked statically (a local bound to a module-/class-level object; self.attr bound to another object's attribute without copying); other aliasing is left to the bounded history replay: a 97-operation catalogue, each operation alone in a fresh interpreter vs inside random sequences, with digests of every process-wide container before and after each operation.",
          "call graph over-approximated by name (see frames.ASSUMPTIONS); import-time table construction (init_opdata, fields2copy) is not reachable from the public operations and is not checked; aliasing: bounded evidence only."),
- "C12": ("Only the 'clean' clause is decided deductively: a frame obligation for each of the 228 functions reachable from disassemble_file / pydisasm's main shows that its body has no print() without file=, no print(file=sys.stdout) and no sys.stdout.write (the listing goes to the stream it was given). Totality over the six formats and faithfulness of the classic/bytes listings to the instruction stream (each non-CACHE instruction once, in order, offset, name, operand, '>>' iff jump target, line number iff it starts a line) are checked on the corpus (2 files per version directory quick, all 260+ thorough): bounded.",
+ "C12": ("Decided deductively: the 'clean' clause and the set of offsets that get a '>>' mark. The word-code label finder (3.6+), whose result the listing marks, is proved per table and for all code bytes to return exactly CPython's dis.findlabels set (the contract of C04; tables 3.8, 3.10-3.13 quick, all word-code tables thorough). Clean: a frame obligation for each of the 228 functions reachable from disassemble_file / pydisasm's main shows that its body has no print() without file=, no print(file=sys.stdout) and no sys.stdout.write (the listing goes to the stream it was given). Totality over the six formats and faithfulness of the classic/bytes listings to the instruction stream (each non-CACHE instruction once, in order, offset, name, operand, '>>' iff jump target, line number iff it starts a line) are checked on the corpus (2 files per version directory quick, all 260+ thorough): bounded.",
          "the per-instruction formatter (string formatting) and the listing loop are outside pyvc's modelled subset (opaque text): bounded evidence only; the instruction stream itself is the subject of C02-C05/C20; two recorded known findings (1.5-2.0 lnotab lines, xasm on PyPy 3.2)."),
  "C07": ("Deductive part: for every expression that reads a host constant (PYTHON_VERSION_TRIPLE, PYTHON3, IS_PYPY, PYTHON_MAGIC_INT, sys.version_info) in a function reachable from the decoding entry points, partial evaluation with the constants of each installed host 3.8-3.13 leaves the same residual expression - the code cannot branch differently on another host - or the expression is one of ten listed switches (fast-path test, default arguments that pick the host's own code type, the host's dis format, the banner) whose two sides are proved equal by C01/C10 (portable reader = format) and C16 (native -> portable field-exact per host). Everything the argument does not reach (text formatting, the host's marshal) is a bounded differential: 43 (quick) / 130+ (thorough) files of versions 2.7-3.13 decoded and listed under each of the six hosts, each 3.8-3.13 file on the native fast path on one host and through xdis's unmarshaller on the others and, on the native host, a second time through xdis's unmarshaller; compared modulo object addresses and the banner.",
          "the composition of C01/C10/C16 into 'both loader paths agree' is an argument in DESIGN.md section 10.5, not a machine-checked lemma; the host's marshal.loads is trusted; hosts are the six installed interpreters; static analysis assumptions of ground/frames.py; two recorded cosmetic known findings (code-object repr, set element order)."),
